@@ -84,6 +84,59 @@ pub fn generate_op(seed: u64, instr: &str, thorough: bool) -> OpSc {
     }
 }
 
+/// Steps that execute something other than an instruction: a name in every binding shape
+/// (unbound, bound, alias chains and rings, quoted), a list, a literal. Named "@...".
+pub const PSEUDO_SUBJECTS: &[&str] = &[
+    "@name:unbound", "@name:bound", "@name:alias-chain", "@name:ring-of-1", "@name:ring-of-2", "@name:ring-of-3", "@name:quoted", "@name:bound-to-instruction",
+    "@list", "@literal",
+];
+
+/// What the envelope-op engine steps: every registered instruction, then the pseudo subjects.
+pub fn op_subjects(names: &[String]) -> Vec<String> {
+    let mut v = names.to_vec();
+    v.extend(PSEUDO_SUBJECTS.iter().map(|s| s.to_string()));
+    v
+}
+
+/// Puts the subject of the measured step on top of EXEC (with the bindings it needs).
+fn push_subject(st: &mut PushState, subject: &str, m: i32, big: usize) {
+    let q = |k: usize| format!("q{}", k);
+    match subject {
+        "@name:unbound" => st.exec_stack.push(Item::id("q-unbound".to_string())),
+        "@name:bound" => {
+            st.name_bindings.insert(q(0), Item::list(vec![Item::int(m), Item::id(q(0))]));
+            st.exec_stack.push(Item::id(q(0)));
+        }
+        "@name:bound-to-instruction" => {
+            st.name_bindings.insert(q(0), Item::instruction("INTEGER.+".to_string()));
+            st.exec_stack.push(Item::id(q(0)));
+        }
+        "@name:alias-chain" => {
+            let n = 3 + big / 100;
+            for k in 0..n {
+                st.name_bindings.insert(q(k), Item::id(q(k + 1)));
+            }
+            st.name_bindings.insert(q(n), Item::int(m));
+            st.exec_stack.push(Item::id(q(0)));
+        }
+        "@name:ring-of-1" | "@name:ring-of-2" | "@name:ring-of-3" => {
+            let n = subject.as_bytes()[subject.len() - 1] as usize - b'0' as usize;
+            for k in 0..n {
+                st.name_bindings.insert(q(k), Item::id(q((k + 1) % n)));
+            }
+            st.exec_stack.push(Item::id(q(0)));
+        }
+        "@name:quoted" => {
+            st.name_bindings.insert(q(0), Item::id(q(0)));
+            st.quote_name = true;
+            st.exec_stack.push(Item::id(q(0)));
+        }
+        "@list" => st.exec_stack.push(Item::list(vec![Item::int(m), Item::list(vec![Item::id(q(0)), Item::float(m as f32)]), Item::instruction("NOOP".to_string()), Item::list(vec![])])),
+        "@literal" => st.exec_stack.push(Item::int(m)),
+        _ => st.exec_stack.push(Item::instruction(subject.to_string())),
+    }
+}
+
 pub const NONFINITE: i64 = -1;
 /// Wall-clock limit of the state-size probe: every instruction of the unchanged tree needs at most
 /// ~20 ms on the largest probe state (10^5 elements) in the optimised-dev build; a reading above
@@ -273,7 +326,7 @@ fn measure_sized(sc: &OpSc, m: i64, big: usize, iset: &mut InstructionSet) -> Re
         st.int_stack.push(if (sc.seed / 4) % 4 == 3 { 1 } else { 0 });
         st.float_stack.push(if (sc.seed / 4) % 4 == 3 { 1.0 } else { 0.0 });
     }
-    st.exec_stack.push(Item::instruction(sc.instr.clone()));
+    push_subject(&mut st, &sc.instr, mi as i32, big);
     let statebytes = statecode::statecode(&st).len() as u64;
     simenv::trace_note(&sc.instr);
     let cache = iset.cache();
